@@ -11,6 +11,8 @@ MC = 'explicit-state model checking of the implementation (exhaustive search ove
 CHECKS = {
     'C01': ('exploration', 'every circuit over the operator/node library with <=2 (thorough 3) nodes and every edge multiset of size <=2 (3), hierarchy, edge templates, vectorize on/off is compiled by the real code and compared per frontend variable with an independent dict-state reference semantics at a base point plus all single deviations of every state variable and constant',
             'finite probe alphabet instead of all reals; models larger than the bounds and operators outside the library are not covered; reference semantics (pyx/refsem) is trusted and self-tested', EXPL, 'DESIGN.md 3 C01'),
+    'C03': ('exploration', 'full lattice model x solver(euler, heun) x dt x dts/dt x T/dts x cutoff on binary-fraction grids plus slices for scipy methods, torch and jax solvers: the DataFrame of run() is compared row by row and index by index with the harness own Euler/Heun loop over the vector field of an identically built template (exact), with closed forms for adaptive solvers, and two-level refinement for convergence',
+            'five small models; T a multiple of the sampling step; stiff systems not covered', EXPL, 'DESIGN.md 3 C03'),
     'C05': ('exploration', 'every operator-labelled expression skeleton with <=3 (thorough 4) operator nodes over + - * / ^, unary minus and the documented functions, leaves from colliding identifier sets, in 4 surface variants and 3 equation forms, evaluated on both paths of the real code (parser + eval_node; generated source) at 3 valuations and compared with python-ast/NumPy evaluation',
             'finite valuations instead of all reals; expressions larger than the bound; index helpers on arrays are covered by C01/C04/C09 models only; valuations outside the real domain of an expression are rejected', EXPL, 'DESIGN.md 3 C05'),
     'C19': ('model_checking', 'explicit-state search of all update sequences up to depth 6/7 on the real DDEHistory class, every query of a lattice checked in every state against a list-based reference',
